@@ -14,6 +14,8 @@ extern "C" {
 void h_env_install(void);
 void h_report_cat(int category);
 void h_exit_hook(void);
+int h_is_translated(void);            // 1 in the translated world (failure text is emptied there), 0 in the real build
+void h_listed_count(unsigned long n); // real build: number of leak entries in the text of the leak failure
 }
 class Rep : public MemoryLeakFailure
 {
@@ -25,7 +27,13 @@ class QuietOutput : public TestOutput
 public:
     virtual void printBuffer(const char*) CPPUTEST_OVERRIDE {}
     virtual void flush() CPPUTEST_OVERRIDE {}
-    virtual void printFailure(const TestFailure&) CPPUTEST_OVERRIDE {}
+    virtual void printFailure(const TestFailure& f) CPPUTEST_OVERRIDE
+    {
+        if (h_is_translated()) return;
+        // real build: count the entries of the real leak report carried by the failure
+        SimpleString m = f.getMessage();
+        h_listed_count(m.count("Alloc num ("));
+    }
 };
 #undef new
 #undef delete
